@@ -39,6 +39,12 @@ func runC16(r *an.Run) {
 	// a bad argument can only be reported if every argument is examined
 	c15OnceInOrder(r)
 	relabel(r, "R3-each-file-once-in-fixed-order", "R8-every-argument-examined")
+	// a change that fails leaves the file unwritten (its partial edits of the tree never reach the disk)
+	c06MatchedFlagAs(r, "R9-a-failed-change-leaves-the-file-unwritten")
+	// every patch of a -P list is loaded or reported
+	c09Collection(r)
+	relabel(r, "R1-order-preserving-collection", "R10-every-listed-patch-is-loaded-or-reported")
+	partialLineAtEOF(r, "R10-every-listed-patch-is-loaded-or-reported")
 }
 
 var destructiveOpens = setOf("os.WriteFile", "os.Create", "os.OpenFile", "os.Truncate", "io/ioutil.WriteFile", "(*os.File).Truncate")
